@@ -39,6 +39,18 @@ func kindsOf(ps []RefPos) string {
 	return strings.Join(ks, "+")
 }
 
+// byKind groups dangling positions by the kind of place that refers: one
+// violation key per kind. (Which kinds of referrers an input happens to hold
+// for an object a pass drops varies from input to input; a key over the whole
+// set of kinds made every combination a different finding.)
+func byKind(ps []RefPos) map[string][]RefPos {
+	out := map[string][]RefPos{}
+	for _, p := range ps {
+		out[p.Kind] = append(out[p.Kind], p)
+	}
+	return out
+}
+
 func describeDangling(ps []RefPos) string {
 	var out []string
 	for i, p := range ps {
@@ -94,7 +106,9 @@ func c05Check(ctx *Ctx, res *CaseResult, dir string, p *c05Payload) map[string]s
 		if p.Kind == "parse" {
 			if len(before) > 0 {
 				format := p.W.Inputs[0].Kind
-				out["dangling|parse:"+format+"|"+kindsOf(before)] = fmt.Sprintf("parser output of %s has dangling references: %s", p.W.Name, describeDangling(before))
+				for kind, ps := range byKind(before) {
+					out["dangling|parse:"+format+"|"+kind] = fmt.Sprintf("parser output of %s has dangling references: %s", p.W.Name, describeDangling(ps))
+				}
 			}
 			return out
 		}
@@ -108,7 +122,9 @@ func c05Check(ctx *Ctx, res *CaseResult, dir string, p *c05Payload) map[string]s
 			ctx.Count("chain.language_checked", 1)
 			if len(after) > 0 {
 				culprit := blameChainPass(run.Langs[l], run.Schemas)
-				out["dangling|chain:"+l+":"+culprit+"|"+kindsOf(after)] = fmt.Sprintf("the %s chain (pass %s) turns resolving references into dangling ones (%s): %s", l, culprit, p.W.Name, describeDangling(after))
+				for kind, ps := range byKind(after) {
+					out["dangling|chain:"+l+":"+culprit+"|"+kind] = fmt.Sprintf("the %s chain (pass %s) turns resolving references into dangling ones (%s): %s", l, culprit, p.W.Name, describeDangling(ps))
+				}
 			}
 		}
 	case "passes":
@@ -158,9 +174,11 @@ func c05Check(ctx *Ctx, res *CaseResult, dir string, p *c05Payload) map[string]s
 			}
 			ctx.Count("passes.step_checked "+ps.Kind, 1)
 			if d := Dangling(next, nil); len(d) > 0 {
-				k := "dangling|pass:" + ps.Kind + "|" + kindsOf(d)
-				if _, dup := out[k]; !dup {
-					out[k] = fmt.Sprintf("step %d %s %s leaves dangling references: %s", i, ps.Kind, passBrief(ps), describeDangling(d))
+				for kind, dps := range byKind(d) {
+					k := "dangling|pass:" + ps.Kind + "|" + kind
+					if _, dup := out[k]; !dup {
+						out[k] = fmt.Sprintf("step %d %s %s leaves dangling references: %s", i, ps.Kind, passBrief(ps), describeDangling(dps))
+					}
 				}
 				// the history goes on from the last clean IR, without this step
 				continue
@@ -329,8 +347,32 @@ func init() {
 			case 3, 4:
 				p.Kind = "passes"
 				p.W = GenWorkload(r, ctx.Corpus, 1, GenOpts{NoAllOf: r.Bool()})
+				constRefs := idx%12 == 3
+				if constRefs {
+					// constant references are the rarest kind of referrer (CUE only): a package
+					// that has them, and a history that starts by copying their holder
+					w := &Workload{Files: map[string]string{}, Languages: []LangSpec{{Name: "jsonschema", Flags: map[string]string{}}}, Types: true}
+					in, _ := genPkgInput(r, w, "pkga", "cue", GenOpts{NoAllOf: true, ConstRefs: true})
+					in.ForcedEnvelope = ""
+					w.Inputs = []InputSpec{in}
+					w.Name = "constrefs:cue"
+					p.W = w
+				}
 				if s := dryLoad(dir, p.W); s != nil {
 					p.Passes = genNameChangingPasses(r, s)
+					if constRefs {
+						first := PassSpec{Kind: "duplicate_object", Obj: "pkga.UsesKind", To: "pkga.UsesKindCopy"}
+						if r.Bool() {
+							first = PassSpec{Kind: "duplicate_object", Obj: "pkga.KindEnum", To: "pkga.KindEnumCopy"}
+						}
+						p.Passes = append([]PassSpec{first}, p.Passes...)
+						for i := range p.Passes[1:] {
+							ps := &p.Passes[1+i]
+							if (ps.Kind == "rename_object" || ps.Kind == "replace_reference" || ps.Kind == "duplicate_object") && r.Chance(1, 2) {
+								ps.Obj = "pkga." + Pick(r, []string{"KindEnum", "UsesKind", "UsesKindCopy", "KindEnumCopy"})
+							}
+						}
+					}
 				}
 			default:
 				p.Kind = "allowed"
